@@ -489,6 +489,11 @@ func writeEvidenceFull(root, prop, tier string, seed int, res *checkResult, nPro
 	if nProof == 0 || nDischarged != nProof || expl != "" {
 		level = "other"
 	}
+	// the level recorded is the level claimed for this property in MANIFEST.json: a property whose obligations all
+	// discharge but which covers only part of the statement is claimed (and recorded) as "other"
+	if claimed := manifestCategory(root, prop); claimed != "" && level == "proof" {
+		level = claimed
+	}
 	var und []string
 	for _, o := range undecided {
 		und = append(und, o.Name)
@@ -684,8 +689,15 @@ func (e *Engine) claimsFor(prop string, unproved []string) []string {
 			add(fmt.Sprintf("%s/at:%s(%s).%s#", name, at.Anchor.Kind, at.Anchor.Pattern, lbl))
 		}
 		if con.Opts["lockcheck"] != "" {
-			for _, k := range []string{"lock:guard:", "lock:block:", "lock:held:", "lock:nodouble:", "handoff:"} {
+			for _, k := range []string{"lock:block:", "lock:held:", "lock:nodouble:", "handoff:"} {
 				add(name + "/" + k)
+			}
+			// the guard discipline is claimed per guarded field, so that a field with accesses that cannot be
+			// proved (ownership that moves, e.g. SrvReq.flushreq) does not take the other fields' claims with it
+			for _, fcl := range e.cs.Fields {
+				if fcl.Class == "guarded" {
+					add(name + "/lock:guard:" + fcl.Type + "." + fcl.Field + "@")
+				}
 			}
 		}
 	}
@@ -700,4 +712,29 @@ func containsStr(xs []string, x string) bool {
 		}
 	}
 	return false
+}
+
+// manifestCategory: level_claimed.category of the property's check in MANIFEST.json ("" if not found).
+func manifestCategory(root, prop string) string {
+	data, err := os.ReadFile(filepath.Join(root, "MANIFEST.json"))
+	if err != nil {
+		return ""
+	}
+	var m struct {
+		Checks []struct {
+			PropertyID   string `json:"property_id"`
+			LevelClaimed struct {
+				Category string `json:"category"`
+			} `json:"level_claimed"`
+		} `json:"checks"`
+	}
+	if json.Unmarshal(data, &m) != nil {
+		return ""
+	}
+	for _, c := range m.Checks {
+		if c.PropertyID == prop {
+			return c.LevelClaimed.Category
+		}
+	}
+	return ""
 }
